@@ -484,12 +484,12 @@ impl H {
         use futures::FutureExt;
         match (self, kind) {
             (H::D(r), SendKind::Tell) => r.tell(MU(body)).map(|x| to_res(x, |_| Rep::None)).boxed(),
-            (H::D(r), SendKind::TellTo(ms)) => r.tell_with_timeout(MU(body), Duration::from_millis(ms)).map(|x| to_res(x, |_| Rep::None)).boxed(),
-            (H::D(r), SendKind::AskTo(ms)) => r.ask_with_timeout(MU(body), Duration::from_millis(ms)).map(|x| to_res(x, Rep::U)).boxed(),
+            (H::D(r), SendKind::TellTo(ms)) => r.tell_with_timeout(MU(body), to_dur(ms)).map(|x| to_res(x, |_| Rep::None)).boxed(),
+            (H::D(r), SendKind::AskTo(ms)) => r.ask_with_timeout(MU(body), to_dur(ms)).map(|x| to_res(x, Rep::U)).boxed(),
             (H::D(r), _) => r.ask(MU(body)).map(|x| to_res(x, Rep::U)).boxed(),
             (H::E(e), SendKind::Tell) => e.tu.tell(MU(body)).map(|x| to_res(x, |_| Rep::None)).boxed(),
-            (H::E(e), SendKind::TellTo(ms)) => e.tu.tell_with_timeout(MU(body), Duration::from_millis(ms)).map(|x| to_res(x, |_| Rep::None)).boxed(),
-            (H::E(e), SendKind::AskTo(ms)) => e.au.ask_with_timeout(MU(body), Duration::from_millis(ms)).map(|x| to_res(x, Rep::U)).boxed(),
+            (H::E(e), SendKind::TellTo(ms)) => e.tu.tell_with_timeout(MU(body), to_dur(ms)).map(|x| to_res(x, |_| Rep::None)).boxed(),
+            (H::E(e), SendKind::AskTo(ms)) => e.au.ask_with_timeout(MU(body), to_dur(ms)).map(|x| to_res(x, Rep::U)).boxed(),
             (H::E(e), _) => e.au.ask(MU(body)).map(|x| to_res(x, Rep::U)).boxed(),
         }
     }
@@ -606,12 +606,29 @@ pub fn mty_char(m: MTy) -> char {
     }
 }
 
+/// timeouts are written in milliseconds; the HALF_MS flag adds half a millisecond (a timeout that is not a whole number of
+/// timer ticks: it may only expire at the NEXT tick, so the monitors see it as `ms + 1`)
+pub fn to_dur(ms: u64) -> Duration {
+    if ms & HALF_MS != 0 {
+        Duration::from_micros((ms & !HALF_MS) * 1000 + 500)
+    } else {
+        Duration::from_millis(ms)
+    }
+}
+pub fn to_ticks(ms: u64) -> u64 {
+    if ms & HALF_MS != 0 {
+        (ms & !HALF_MS) + 1
+    } else {
+        ms
+    }
+}
+
 pub fn kind_of(k: SendKind) -> (OpKind, u64) {
     match k {
         SendKind::Tell => (OpKind::Tell, 0),
-        SendKind::TellTo(ms) => (OpKind::TellTo, ms),
+        SendKind::TellTo(ms) => (OpKind::TellTo, to_ticks(ms)),
         SendKind::Ask => (OpKind::Ask, 0),
-        SendKind::AskTo(ms) => (OpKind::AskTo, ms),
+        SendKind::AskTo(ms) => (OpKind::AskTo, to_ticks(ms)),
         SendKind::AskJoin => (OpKind::AskJoin, 0),
     }
 }
@@ -621,12 +638,12 @@ macro_rules! direct_send {
         match $kind {
             SendKind::Tell => to_res($r.tell($M($body)).await, |_| Rep::None),
             SendKind::TellTo(ms) => to_res(
-                $r.tell_with_timeout($M($body), Duration::from_millis(ms)).await,
+                $r.tell_with_timeout($M($body), to_dur(ms)).await,
                 |_| Rep::None,
             ),
             SendKind::Ask | SendKind::AskJoin => to_res($r.ask($M($body)).await, $conv),
             SendKind::AskTo(ms) => to_res(
-                $r.ask_with_timeout($M($body), Duration::from_millis(ms)).await,
+                $r.ask_with_timeout($M($body), to_dur(ms)).await,
                 $conv,
             ),
         }
@@ -638,12 +655,12 @@ macro_rules! erased_send {
         match $kind {
             SendKind::Tell => to_res($t.tell($M($body)).await, |_| Rep::None),
             SendKind::TellTo(ms) => to_res(
-                $t.tell_with_timeout($M($body), Duration::from_millis(ms)).await,
+                $t.tell_with_timeout($M($body), to_dur(ms)).await,
                 |_| Rep::None,
             ),
             SendKind::Ask | SendKind::AskJoin => to_res($a.ask($M($body)).await, $conv),
             SendKind::AskTo(ms) => to_res(
-                $a.ask_with_timeout($M($body), Duration::from_millis(ms)).await,
+                $a.ask_with_timeout($M($body), to_dur(ms)).await,
                 $conv,
             ),
         }
@@ -682,11 +699,11 @@ pub async fn send_via(
             MTy::J => match kind {
                 SendKind::Tell => to_res(r.tell(MJ(body)).await, |_| Rep::None),
                 SendKind::TellTo(ms) => to_res(
-                    r.tell_with_timeout(MJ(body), Duration::from_millis(ms)).await,
+                    r.tell_with_timeout(MJ(body), to_dur(ms)).await,
                     |_| Rep::None,
                 ),
                 SendKind::AskTo(ms) => {
-                    join_to_res(r.ask_with_timeout(MJ(body), Duration::from_millis(ms)).await).await
+                    join_to_res(r.ask_with_timeout(MJ(body), to_dur(ms)).await).await
                 }
                 SendKind::Ask | SendKind::AskJoin => to_res(r.ask_join(MJ(body)).await, Rep::J),
             },
@@ -699,11 +716,11 @@ pub async fn send_via(
             MTy::J => match kind {
                 SendKind::Tell => to_res(e.tj.tell(MJ(body)).await, |_| Rep::None),
                 SendKind::TellTo(ms) => to_res(
-                    e.tj.tell_with_timeout(MJ(body), Duration::from_millis(ms)).await,
+                    e.tj.tell_with_timeout(MJ(body), to_dur(ms)).await,
                     |_| Rep::None,
                 ),
                 SendKind::AskTo(ms) => {
-                    join_to_res(e.aj.ask_with_timeout(MJ(body), Duration::from_millis(ms)).await).await
+                    join_to_res(e.aj.ask_with_timeout(MJ(body), to_dur(ms)).await).await
                 }
                 SendKind::Ask | SendKind::AskJoin => join_to_res(e.aj.ask(MJ(body)).await).await,
             },
